@@ -504,11 +504,24 @@ def _plain_fixtures():
     return [{"gen": "fixture", "provider": p, "fixture": n, "muts": [], "multiple": True, "as_bytes": True} for n in sorted(fixtures()) for p in ("zoneinfo", "pytz")]
 
 
+def _lone_cr_cases():
+    """accepted, not well-formed: a lone CR inside a value (kept as data by the parser) at every column of a long line - the
+    re-serialisation folds the line, and the CR ends up at every position relative to a fold"""
+    out = []
+    for name in ("DESCRIPTION", "X-LONG-NAME-OF-AN-EXTENSION"):
+        for col in range(0, 320):
+            for ch in ("\r", "\r\r"):
+                text = "BEGIN:VCALENDAR\r\nBEGIN:VEVENT\r\n" + name + ":" + "a" * col + ch + "b" * (330 - col) + "\r\nEND:VEVENT\r\nEND:VCALENDAR\r\n"
+                out.append({"gen": "raw", "provider": "zoneinfo", "raw": text, "multiple": col % 2 == 0, "as_bytes": col % 3 != 0})
+    return out
+
+
 def streams(tier):
     n = 300 if tier == "quick" else 5000
     return [
         Stream("fixtures-unmutated", "fixed", 0, 8, _plain_fixtures, True, False, timeout_s=60),
         Stream("grammar-trees", "hyp", n, 16, tree_cases, timeout_s=60),
+        Stream("lone-cr-at-every-column", "fixed", 0, 8, _lone_cr_cases, True, False, timeout_s=60),
         Stream("mutated-fixtures", "hyp", n // 2, 16, fixture_cases, timeout_s=60),
     ] + ([Stream("atheris-bytes", "custom", 0, 8, _atheris, timeout_s=60)] if tier == "thorough" else [])
 
